@@ -102,6 +102,20 @@ def check(case, ctx):
                 return fails
             _vec("clustering_coef_wu_sign(pos)", cp, nump, denp, case, fails, True)
             _vec("clustering_coef_wu_sign(neg)", cn, numn, denn, case, fails, True)
+        # the two other published variants of the signed coefficient
+        W0 = W.copy()
+        np.fill_diagonal(W0, 0)
+        r = run(bct.clustering_coef_wu_sign, gen.layout(W.copy(), case.get("order")), coef_type="zhang")
+        if r is not None:
+            try:
+                zp, zn = r
+                _vec("clustering_coef_wu_sign(zhang,pos)", zp, *oc.zhang_terms(W0 * (W0 > 0)), case, fails, True)
+                _vec("clustering_coef_wu_sign(zhang,neg)", zn, *oc.zhang_terms(-W0 * (W0 < 0)), case, fails, True)
+            except TypeError:
+                fails.append(Failure("clustering_coef_wu_sign(zhang):bad-return", repr(r)[:200], case))
+        r = run(bct.clustering_coef_wu_sign, gen.layout(W.copy(), case.get("order")), coef_type="costantini")
+        if r is not None:
+            _vec("clustering_coef_wu_sign(costantini)", r, *oc.costantini_terms(W0), case, fails, False)
         return fails
 
     if np.any(num > 0) and np.any(num == 0):
@@ -116,6 +130,27 @@ def check(case, ctx):
     r = run(ft, gen.layout(W.copy(), case.get("order")))
     if r is not None:
         _scal(ft.__name__, r, num, den, case, fails)
+    # history: the SAME array object is handed in again after having been edited in place (as callers do when they threshold or
+    # rescale a matrix between two measurements); the second answers must describe the edited matrix
+    X = gen.layout(W.copy().astype(float), case.get("order"))
+    run(fc, X)
+    run(ft, X)
+    drop = case.get("drop")
+    if drop is not None and len(X) > drop:
+        X[drop, :] = 0          # disconnect one node in place ...
+        X[:, drop] = 0
+        if kind in ("wu", "wd"):
+            X *= 0.5             # ... and rescale all weights (weighted routines only: binary routines are documented for 0/1 input)
+        if kind in ("bu", "wu"):
+            num2, den2 = oc.und_terms(X, weighted=(kind == "wu"))
+        else:
+            num2, den2 = oc.dir_terms(X, weighted=(kind == "wd"))
+        r = run(fc, X)
+        if r is not None:
+            _vec(fc.__name__ + "[same-array-edited-in-place]", r, num2, den2, case, fails, True)
+        r = run(ft, X)
+        if r is not None:
+            _scal(ft.__name__ + "[same-array-edited-in-place]", r, num2, den2, case, fails)
     return fails
 
 
@@ -170,7 +205,7 @@ def cases(draw, nmax, kinds):
         W = draw(gen.weights_for(A, draw(st.sampled_from(["dyadic", "float"])), directed))
     else:
         W = draw(gen.weights_for(A, "signed", False))
-    return {"kind": kind, "W": W, "order": draw(st.sampled_from(gen.ORDERS))}
+    return {"kind": kind, "W": W, "order": draw(st.sampled_from(gen.ORDERS)), "drop": draw(st.integers(0, 2))}
 
 
 _SP = {}
@@ -187,7 +222,7 @@ def _space(tier):
 
 def _exh(tier, lo, hi):
     for n, d, A, k in _space(tier).range(lo, hi):
-        yield {"kind": "bd" if d else "bu", "W": A.astype(float), "order": gen.ORDERS[k % len(gen.ORDERS)]}
+        yield {"kind": "bd" if d else "bu", "W": A.astype(float), "order": gen.ORDERS[k % len(gen.ORDERS)], "drop": k % 3}
 
 
 _D5 = gen.GraphSpace([(5, True)])
